@@ -11,3 +11,4 @@ import MypyVerif.Props.C12Fold
 import MypyVerif.Props.C11
 import MypyVerif.Props.C10
 import MypyVerif.Props.C15
+import MypyVerif.Props.C17
